@@ -26,12 +26,22 @@ def gen_case(r, cid, impl, hasher, big, stats=None):
         pool = min(pool, r.choice([12, 40, 200]))
     nphases = r.randint(2, 6)
     for ph in range(nphases):
-        kind = r.choice(["bulk_ins", "bulk_del", "mixed", "mixed", "clear", "compute_abs"])
+        kind = r.choice(["bulk_ins", "bulk_del", "mixed", "mixed", "clear", "compute_abs", "fn_ins"])
         st("phase:" + kind)
         if kind == "bulk_ins":
             ks = list(range(pool)); r.shuffle(ks)
             for k in ks[: r.randint(1, pool)]:
                 ops.append("OP %s %d %d" % (r.choice(["store", "store", "loadorstore", "loadandstore", "loadorcompute"]), k, val()))
+        elif kind == "fn_ins":
+            # fresh keys inserted through the function-taking calls, in numbers that cross the grow
+            # thresholds: the function must run exactly once per call even when the insert has to
+            # grow the table first (values are positional, so a second invocation shows)
+            base = 100000 + ph * 10000
+            for j in range(r.choice([40, 90, 140, 260]) if big else r.choice([10, 80, 130])):
+                if r.random() < 0.5:
+                    ops.append("OP loadorcompute %d %d" % (base + j, val()))
+                else:
+                    ops.append("OP compute %d %s %d" % (base + j, r.choice(["set", "incr", "delifloaded"]), val()))
         elif kind == "bulk_del":
             ks = list(range(pool)); r.shuffle(ks)
             for k in ks[: r.randint(1, pool)]:
